@@ -1,6 +1,6 @@
 \* binding demonstration: the classification TrivialDec replaced by the mutant TrivialDecEnumMutant -- TLC must find a counterexample type tree
-CONSTANTS Universe = "d1" SampleD2 = 0 SampleD3 = 0
+CONSTANTS Universe = "d1" SampleD2 = 0 SampleD3 = 0 Part = 0 NParts = 1 WithNamed = TRUE
 CONSTANT TrivialDec <- TrivialDecEnumMutant
 SPECIFICATION Spec
-INVARIANT Inv
+INVARIANT InvC10
 CHECK_DEADLOCK FALSE
